@@ -496,6 +496,8 @@ pub fn drive(universe_file: &str, vectors: &str, out: &str) {
   let us: Value = serde_json::from_str(&std::fs::read_to_string(universe_file).unwrap()).unwrap();
   let mut w = NdWriter::new(out);
   let (mut n_loaded, mut n_rejected, mut n_cfg) = (0, 0, 0);
+  // rule files that loaded, per (universe, tree): scanned together afterwards (C01: one rule or many)
+  let mut together: std::collections::BTreeMap<(usize, usize), Vec<(String, Value, Vec<Value>, Vec<usize>)>> = Default::default();
   for (i, v) in util::read_ndjson(vectors).iter().enumerate() {
     let ui = v["u"].as_u64().unwrap() as usize;
     let ti = v["t"].as_u64().unwrap() as usize;
@@ -580,6 +582,9 @@ pub fn drive(universe_file: &str, vectors: &str, out: &str) {
           ids
         }));
         let (cv, _, _) = per_node(&c.matcher, &nodes, &p);
+        if let Ok(alone) = &fa {
+          together.entry((ui, ti)).or_default().push((format!("r{i}"), full.clone(), gdocs.clone(), alone.clone()));
+        }
         rec["cfg"] = json!({"ok": true, "hits": hits_of(&cv),
           "find_all": fa.unwrap_or(vec![0]), "visit": vis.unwrap_or(vec![0]), "visit_outer": non.unwrap_or(vec![0]),
           "combined": comb.unwrap_or(vec![0]),
@@ -591,6 +596,62 @@ pub fn drive(universe_file: &str, vectors: &str, out: &str) {
     }
     w.put(&rec);
   }
+  // many rules scanned together: windows of up to four rule files over the same tree, some of them with a fix, in
+  // both modes of CombinedScan::scan; every member must report what it reports alone
+  let mut n_sets = 0;
+  let mut w2 = NdWriter::new(&format!("{out}.sets"));
+  for ((ui, ti), members) in &together {
+    let u = &us[ui - 1];
+    let l = util::lang(u["lang"].as_str().unwrap());
+    let src = u["trees"][ti - 1]["src"].as_str().unwrap();
+    let g = l.ast_grep(src);
+    let p = proj::project(&g.root(), true);
+    let windows: Vec<&[(String, Value, Vec<Value>, Vec<usize>)]> = members.chunks(4).collect();
+    let cap = (windows.len() / 60).max(1);
+    for (wi, win) in windows.iter().enumerate().filter(|(wi, _)| wi % cap == 0) {
+      let out = catch_unwind(AssertUnwindSafe(|| {
+        let mut globals = vec![];
+        let mut cfgs = vec![];
+        for (k, (_, full, gdocs, _)) in win.iter().enumerate() {
+          let mut doc = full.clone();
+          doc["id"] = json!(format!("m{k}"));
+          // which members carry a fix changes with the window
+          if (wi >> k) & 1 == 1 {
+            doc["fix"] = json!("X");
+          }
+          globals.push(globals_of(gdocs).unwrap_or_default());
+          cfgs.push(serde_json::to_string(&doc).unwrap());
+        }
+        let loaded: Vec<_> = cfgs.iter().zip(globals.iter()).map(|(y, gl)| from_yaml_string::<SupportLang>(y, gl).ok().and_then(|mut v| v.pop())).collect();
+        if loaded.iter().any(|c| c.is_none()) {
+          return None;
+        }
+        let loaded: Vec<_> = loaded.into_iter().flatten().collect();
+        let scan = CombinedScan::new(loaded.iter().collect());
+        let mut per_mode = vec![];
+        for sep in [false, true] {
+          let r = scan.scan(&g, sep);
+          let mut by_id: std::collections::BTreeMap<String, Vec<usize>> = Default::default();
+          for (c, ms) in r.matches {
+            by_id.entry(c.id.clone()).or_default().extend(ms.iter().map(|m| p.id_of(m.get_node())));
+          }
+          for (c, m) in r.diffs {
+            by_id.entry(c.id.clone()).or_default().push(p.id_of(m.get_node()));
+          }
+          per_mode.push(by_id);
+        }
+        Some(per_mode)
+      }));
+      let per_mode = match out { Ok(Some(m)) => m, Ok(None) => continue, Err(_) => vec![] };
+      let ms: Vec<Value> = win.iter().enumerate().map(|(k, (rid, _, _, alone))| {
+        let get = |mode: usize| per_mode.get(mode).map(|m| m.get(&format!("m{k}")).cloned().unwrap_or_default());
+        json!({"rid": rid, "fix": (wi >> k) & 1 == 1, "alone": alone, "together": get(0).unwrap_or(vec![0]), "together_sep": get(1).unwrap_or(vec![0])})
+      }).collect();
+      w2.put(&json!({"id": format!("set-u{ui}t{ti}w{wi}"), "kind": "set", "lang": u["lang"], "src": src, "panic": per_mode.is_empty(), "members": ms}));
+      n_sets += 1;
+    }
+  }
   let n = w.finish();
-  util::summary(json!({"records": n, "rules_loaded": n_loaded, "rules_rejected": n_rejected, "configs_loaded": n_cfg}));
+  w2.finish();
+  util::summary(json!({"records": n, "rules_loaded": n_loaded, "rules_rejected": n_rejected, "configs_loaded": n_cfg, "rule_sets_scanned_together": n_sets}));
 }
